@@ -27,7 +27,7 @@ impl Ora for f32 {
     }
 }
 
-/// a <= b (exact domain) / a <= b + tol (floats); records the overshoot / tol ratio.
+/// a <= b (exact domain) / a <= b + tol (floats); records the overshoot / tol ratio of accepted comparisons.
 pub fn le<O: Dom>(cx: &mut Cx, a: O, b: O, tol: f64) -> bool {
     cx.count();
     if O::EXACT {
@@ -37,7 +37,7 @@ pub fn le<O: Dom>(cx: &mut Cx, a: O, b: O, tol: f64) -> bool {
         if !d.is_finite() {
             return false;
         }
-        if d > 0.0 && tol > 0.0 {
+        if d > 0.0 && d <= tol {
             cx.note_err(d / tol);
         }
         d <= tol
@@ -53,7 +53,7 @@ pub fn eqv<O: Dom>(cx: &mut Cx, a: O, b: O, tol: f64) -> bool {
         if !d.is_finite() {
             return false;
         }
-        if d > 0.0 && tol > 0.0 {
+        if d > 0.0 && d <= tol {
             cx.note_err(d / tol);
         }
         d <= tol
